@@ -4,8 +4,8 @@ from contracts._platform import RE_LIB, URL_ATTRS, BOUND
 # ---------------------------------------------------------------------------------------------------------------------------
 # functional contract of lru_stems_from_parsed_url: WHICH stems, in WHICH order (C12: nothing is lost; C13: the order is the hierarchy)
 N0 = "unpack(parsed_url, 1, 'Str')"                                      # netloc as given
-AUTH = "%s.split('@', 1)[0]" % N0
-NA = "ite('@' in %s, %s.split('@', 1)[1], %s)" % (N0, N0, N0)            # netloc without userinfo
+AUTH = "%s.rsplit('@', 1)[0]" % N0
+NA = "ite('@' in %s, %s.rsplit('@', 1)[1], %s)" % (N0, N0, N0)            # netloc without userinfo
 NL = "uf('re_split', 'Seq[Str]', PORT_SPLITTER, %s)" % NA                 # [host] or [host, port]
 USER = "ite('@' in %s, opt(ite(':' in %s, %s.split(':', 1)[0], %s)), none('Str'))" % (N0, AUTH, AUTH, AUTH)
 PW = "ite('@' in %s and ':' in %s, opt(%s.split(':', 1)[1]), none('Str'))" % (N0, AUTH, AUTH)
